@@ -130,6 +130,23 @@ def run(rep, tier, rng):
         if (rc not in (0, 255)) or m[:1] != [want_exit] or mo != C.esc_out(out):
             rep.violation({"broken": "correspondence Front.cli <-> main.rs", "program": text, "exit": rc, "stdout": out,
                            "stderr": err, "model": m}, no_input=True)
+    # the same program named in different ways: absolute path from another directory (above), a bare file name from its own
+    # directory, ./name, a relative path through .. - same output, same status, diagnostic starting with the name as given
+    for i, (forms, text, fault) in enumerate(progs[:40 if tier == "quick" else 400]):
+        path = os.path.join(work, "progs", "p%d.scm" % i)
+        open(path, "wb").write(text.encode())
+        ref = F.run_cli(binp, os.path.join(work, "cwd"), path)
+        for cwd, arg in ((os.path.join(work, "progs"), "p%d.scm" % i), (os.path.join(work, "progs"), "./p%d.scm" % i),
+                         (os.path.join(work, "cwd"), "../progs/p%d.scm" % i)):
+            rc, out, err = F.run_cli(binp, cwd, arg)
+            rep.count()
+            rep.nontrivial((arg, text))
+            want_err = ref[2].replace(path, arg, 1)
+            if (rc, out, " ".join(err.split())) != (ref[0], ref[1], " ".join(want_err.split())):
+                rep.violation({"what": "the outcome of running a program file depends on how the file is named or on the working directory",
+                               "program": text, "working_directory_relative_to_program": os.path.relpath(cwd, os.path.dirname(path)),
+                               "argument": arg, "got": [rc, out, err], "with_absolute_path": list(ref)})
+                break
     # special files
     for name, content in special:
         path = os.path.join(work, "progs", "special-" + name)
@@ -163,7 +180,8 @@ def main(tier, seed):
                        "with a form rejected before evaluation (malformed special form, stray parenthesis, bad literal, unclosed form at end of file), "
                        "joined by LF / CRLF / blank lines / blanks, with or without final newline; plus a missing file, a directory, "
                        "a non-UTF-8 file, an empty file, CR LF inside a string literal; each run through the built binary from "
-                       "another working directory; distinct = distinct program texts")
+                       "another working directory, and (a sample) also by bare name from its own directory, as ./name and through ..; "
+                       "distinct = distinct program texts")
     rep.assumptions = ["exit status, the stdout/stderr split and the diagnostic text are observed on the real binary, not proved"]
     ok = C.standard_proof_phase(rep, MODULES, directed_search=lambda r: run(r, tier, rng))
     if ok:
